@@ -2,6 +2,7 @@
 EXTENDS LSCore, Json, IOUtils
 VARIABLE hist
 GAddr == {"A", "B"}
+GAddr3 == {"A", "B", "C"}
 GRoots == {"-", "A", "R"}
 Depth == IF "VERIF_DEPTH" \in DOMAIN IOEnv THEN atoi(IOEnv.VERIF_DEPTH) ELSE 4
 Mode == IF "VERIF_LSMODE" \in DOMAIN IOEnv THEN IOEnv.VERIF_LSMODE ELSE "c11"
